@@ -174,6 +174,41 @@ def _self_state_writes(body):
     return out
 
 
+def rule_r8(facts, col):
+    """what was written into a write window is committed: every fill_from_slice()/fill_from_iter() is followed, on every path
+    to a non-error return, by a produce() on the same window (a block that drains its own buffers into the window and then
+    forgets the commit loses those samples)"""
+    for body in facts.impl_bodies(BLOCK_TRAIT, "work"):
+        prods = {}
+        for bb, t in body.calls_to(effects.PRODUCE):
+            w = _wb_of(body.operand_expr(t["args"][0]))
+            if w is not None:
+                prods.setdefault(w, set()).add(bb)
+        k = 0
+        for bb, t in body.calls():
+            q = t["f"].get("q") or ""
+            if not (q.startswith("circular_buffer::BufferWriter::") and t["f"].get("name") in ("fill_from_slice", "fill_from_iter")):
+                continue
+            w = _wb_of(body.operand_expr(t["args"][0]))
+            key = "%s:fill#%d" % (body.q, k)
+            k += 1
+            if w is None:
+                col.silent("C08.R8", key, body.where(bb), "window origin not visible")
+                continue
+            start = body.term(bb).get("t")
+            if start is None or start in prods.get(w, set()):
+                r = set()
+            else:
+                r = body.reachable(start, avoid=prods.get(w, set()))
+            lost = [vb for vb, verdict, e in effects.verdict_defs(body) if verdict != "Err" and vb in r]
+            if lost:
+                col.bad("C08.R8", key, body.where(bb),
+                        "samples are written into the write window here but work() can return (%s) without committing them with "
+                        "produce(): whatever was taken out of the block's own buffers / input for them is lost" % body.where(lost[0]), {})
+            else:
+                col.ok("C08.R8", key, body.where(bb), "every non-error path from the fill commits the window")
+
+
 def rule_r5(facts, col):
     """a sample that has changed the block's carried state is counted as consumed: in a per-sample loop whose consume() count
     is a counter incremented in the loop, every path from the loop head through a write of self state to a loop exit also
@@ -413,6 +448,8 @@ def run(ctx):
     rule_r3(facts, ctx)
     rule_r5(facts, ctx)
     rule_r6(facts, ctx)
+    rule_r8(facts, ctx)
+    ctx.floor("C08.R8", 8, "fill_from_* sites of the crate's work() bodies")
     rule_r7(facts, ctx)
     ctx.floor("C08.R7", 1, "advanced copies of carried state (or the statement that there are none)")
     ctx.floor("C08.R5", 1, "RationalResampler's counted consume")
